@@ -64,6 +64,9 @@ def run(ctx):
     mons = {unit.name: ("m_options", lambda v: None, hint, 40)}
     ctx.pyvc([unit], mons)
     create_wrapper_call_site(ctx)
+    from contracts import ast_nodes
+    ctx.pyvc(ast_nodes.UNITS, {})
+    ast_nodes.scope_wiring_items(ctx, REPO)
     try:
         from contracts import util_scope
         ctx.pyvc(util_scope.UNITS, {})
@@ -77,7 +80,8 @@ def run(ctx):
     ]
     ctx.not_covered += [
         "identity of two whole runs (relation between executions of the whole generator): bounded monitor m_options only",
-        "per-node option/format scope wiring in ast.*Node.__init__, attrs/fattrs merge",
+        "util.Scope's own lookup semantics (parent fallback) and the per-argument attrs merge; the wiring check is per "
+        "assignment statement (fresh child scope of the container's scope)",
     ]
     if ctx.tier == "thorough":
         r = ctx.monitor("m_options", "search", 40, ctx.seed)
